@@ -4,6 +4,7 @@ import (
 	"bytes"
 	"encoding/hex"
 	"fmt"
+	"reflect"
 	"strings"
 
 	"github.com/EscanBE/evermint/v12/x/evm/vm"
@@ -198,12 +199,30 @@ func (m customPrecompiledContractMethodExecutorImpl) Execute(caller corevm.Contr
 		))
 	}
 
+	if !m.executor.ReadOnly() && isInterpreterReadOnly(evm) {
+		// inside a STATICCALL context, no matter how deeply nested and which call opcode reached this contract
+		return nil, corevm.ErrWriteProtection
+	}
+
 	ctx := evm.StateDB.(vm.CStateDB).GetCurrentContext()
 	return m.executor.Execute(caller, contractAddress, input, cpcExecutorEnv{
 		ctx:             ctx,
 		evm:             evm,
 		protocolVersion: m.protocolVersion,
 	})
+}
+
+// isInterpreterReadOnly reports whether the EVM interpreter is currently executing in read-only mode,
+// that is inside a STATICCALL frame or any frame nested in one.
+// The interpreter only passes the flag of the immediate call opcode to custom precompiled contracts,
+// and does not export the inherited flag, so it is read from the unexported field.
+// Panics if the field no longer exists, to not silently lose the write protection.
+func isInterpreterReadOnly(evm *corevm.EVM) bool {
+	field := reflect.ValueOf(evm.Interpreter()).Elem().FieldByName("readOnly")
+	if !field.IsValid() || field.Kind() != reflect.Bool {
+		panic("EVM interpreter does not have the boolean field readOnly")
+	}
+	return field.Bool()
 }
 
 type CustomPrecompiledContractI interface {
